@@ -32,7 +32,19 @@ def _axis(case):
     return ax, start
 
 
+def _ax(a):
+    """(data, start, step) in internal units, whatever units are current."""
+    qr = isolation.qr()
+    with qr.energy_units("int"):
+        return numpy.array(a.data, copy=True), float(a.start), float(a.step)
+
+
 def _same_axis(a, b):
+    with isolation.qr().energy_units("int"):
+        return _same_axis_int(a, b)
+
+
+def _same_axis_int(a, b):
     bad = []
     if type(a) is not type(b):
         bad.append("class")
@@ -51,6 +63,20 @@ def _same_axis(a, b):
 
 
 def eval_case(case):
+    qr = isolation.qr()
+    ctx = case.get("ctx")
+    if ctx:
+        # the whole scenario runs inside a units context: transforms and axis conjugation
+        # must not depend on the units that happen to be current
+        with qr.energy_units(ctx):
+            res = _eval(case)
+        for i, v in enumerate(res["violations"]):
+            res["violations"][i] = (v[0] + "/inside-energy_units(%s)" % ctx,) + tuple(v[1:])
+        return res
+    return _eval(case)
+
+
+def _eval(case):
     qr = isolation.qr()
     viol = []
     ax, start = _axis(case)
@@ -79,11 +105,12 @@ def eval_case(case):
                       "back": [back.start, back.length, back.step]}))
     # conjugate axis against the independent formula
     exp_len, exp_step, exp_start0 = FS.conjugate_axis(N, dt, case["atype"], case["dir"])
-    if conj_ax.length != exp_len or abs(conj_ax.step - exp_step) > TOL * exp_step:
+    cstep = _ax(conj_ax)[2]
+    if conj_ax.length != exp_len or abs(cstep - exp_step) > TOL * exp_step:
         viol.append(("conjugate-axis/%s/grid" % tag,
                      "conjugate axis has length/step %s/%g, expected %d/%g"
-                     % (conj_ax.length, conj_ax.step, exp_len, exp_step), None))
-    outcome.append([conj_ax.length, round(float(conj_ax.step), 9)])
+                     % (conj_ax.length, cstep, exp_len, exp_step), None))
+    outcome.append([conj_ax.length, round(float(cstep), 9)])
 
     # ---- clauses 2+3 on the complete basis of the data space ------------
     sum_applies = ((case["atype"] == "upper-half" and case["start"] == "zero") or
@@ -103,7 +130,7 @@ def eval_case(case):
             f = qr.DFunction(ax, y.copy())
             F = f.get_Fourier_transform()
             if sum_applies and case["dir"] == "t":
-                ref = FS.direct_sum(ax.data, y, dt, F.axis.data, case["atype"])
+                ref = FS.direct_sum(_ax(ax)[0], y, dt, _ax(F.axis)[0], case["atype"])
                 ok, err = approx(F.data, ref, TOL, scale=dt)
                 worst_sum = max(worst_sum, err)
                 if not ok:
@@ -140,8 +167,9 @@ def eval_case(case):
             seen.add(v[0])
             v2.append(v)
     outcome.append([round(worst_sum, 6), round(worst_rt, 6)])
-    return {"nontrivial": True, "outcome": [tag, case["N"], case["step"], case["start"]],
+    return {"nontrivial": True, "outcome": [tag, case["N"], case["step"], case["start"], case.get("ctx")],
             "violations": v2, "n": nbasis}
+
 
 
 def replay(case):
@@ -150,7 +178,7 @@ def replay(case):
 
 def cases(tier):
     Ns = list(range(2, 10)) if tier == "quick" else list(range(2, 18)) + [32, 33, 64, 101]
-    dom = {"dir": ["t", "w"], "atype": ["complete", "upper-half"],
+    dom = {"ctx": [None, "1/cm"], "dir": ["t", "w"], "atype": ["complete", "upper-half"],
            "start": ["zero", "centred", 3.0, -1.25], "step": [1.0, 0.5, 2.0, 0.37],
            "N": Ns}
     return product(dom)
